@@ -422,6 +422,21 @@ fn run_all_inspections(
             None,
         )?;
 
+        // an inspection whose command does not exit with status 0 fails
+        // the verification; its link is not recorded
+        let return_value = match &metablock.metadata {
+            MetadataWrapper::Link(link) => link.byproducts.return_value(),
+            MetadataWrapper::Layout(_) => None,
+        };
+        if return_value != Some(0) {
+            return Err(Error::VerificationFailure(format!(
+                "inspection '{}' command {:?} returned {:?} instead of 0",
+                inspect.name(),
+                cmd_args,
+                return_value,
+            )));
+        }
+
         // dump the metadata
         let filename = format!("{}.link", inspect.name());
         std::fs::write(filename, serde_json::to_string_pretty(&metablock)?)?;
